@@ -76,7 +76,7 @@ func genCase(t *rapid.T) Case {
 	n := rapid.IntRange(3, 25).Draw(t, "n")
 	for i := 0; i < n; i++ {
 		op := Op{Client: rapid.IntRange(0, c.Clients-1).Draw(t, "client")}
-		op.Kind = rapid.SampledFrom([]string{"get", "get", "set", "set", "setbad", "settyped", "settyped", "update", "updatebad", "subscribe", "rawget", "set2", "update2", "subscribe2", "stats", "trace", "unsubscribe", "subscribe"}).Draw(t, "kind")
+		op.Kind = rapid.SampledFrom([]string{"get", "get", "set", "set", "setbad", "settyped", "settyped", "update", "updatebad", "subscribe", "rawget", "set2", "update2", "subscribe2", "stats", "trace", "unsubscribe", "subscribe", "subscribe2", "terminate2", "stalecancel2"}).Draw(t, "kind")
 		switch op.Kind {
 		case "set", "update", "set2", "update2":
 			op.Value = rapid.Int32Range(0, 1<<30).Draw(t, "v")
@@ -127,6 +127,8 @@ type client struct {
 	proxy2 space.BombProxy
 	subs2  []*subscriber
 	twin   *probe.Bomb
+	// removeTwin removes the second object from its service
+	removeTwin func() error
 }
 
 func dynString(s string) []byte { return ref.EncodeDyn(ref.Dyn{T: ref.Scalar(ref.KString), V: s}) }
@@ -173,7 +175,8 @@ func setup(nclients int) (*netkit.Env, *probe.Bomb, uint32, []*client, func(), e
 			env.Close()
 			return nil, nil, 0, nil, nil, err
 		}
-		clients = append(clients, &client{proxy: space.MakeBomb(sess, p), raw: raw, proxy2: space.MakeBomb(sess, p2), twin: twin})
+		clients = append(clients, &client{proxy: space.MakeBomb(sess, p), raw: raw, proxy2: space.MakeBomb(sess, p2), twin: twin,
+			removeTwin: func() error { return svc.Remove(obj2) }})
 	}
 	cleanup := func() {
 		for _, f := range closers {
@@ -211,12 +214,17 @@ func checkCase(c Case) error {
 	}
 	defer cleanup()
 	model := int32(10) // Activate initialises the property with UpdateDelay(10)
+	twinGone := false  // the second object has been removed from its service
 	rejected, typed, updates := 0, 0, 0
 
 	// every subscriber has exactly the accepted writes since it subscribed
 	checkEvents := func(step int, why string) error {
 		for ci, cl := range clients {
-			for si, s := range append(append([]*subscriber{}, cl.subs...), cl.subs2...) {
+			all := append([]*subscriber{}, cl.subs...)
+			if !twinGone {
+				all = append(all, cl.subs2...)
+			}
+			for si, s := range all {
 				// barrier on the subscriber's connection, then wait for the pipeline
 				if _, err := cl.proxy.GetDelay(); err != nil {
 					return vt.Violationf("C14:get-error", "step %d: barrier GetDelay failed: %v", step, err)
@@ -322,25 +330,58 @@ func checkCase(c Case) error {
 				return vt.Violationf("C14:setup", "step %d: %s(%d) answered %v", i, op.Kind, op.Value, f)
 			}
 			vt.Label("stats-or-trace-toggled")
+		case "terminate2":
+			// the second object is removed from its service: its subscribers are
+			// told (C16); the cancel functions they hold are called later
+			if twinGone {
+				continue
+			}
+			if err := cl.removeTwin(); err != nil {
+				return vt.Violationf("C14:setup", "step %d: removing the second object: %v", i, err)
+			}
+			twinGone = true
+			vt.Label("second-object-removed")
+		case "stalecancel2":
+			// cancel functions of subscriptions whose object is gone: whatever
+			// they release, it is not what others have subscribed since
+			if !twinGone {
+				continue
+			}
+			for _, c2 := range clients {
+				for _, s := range c2.subs2 {
+					if s.cancel != nil {
+						s.cancel()
+						s.cancel = nil
+						vt.Label("cancel-after-object-removed")
+					}
+				}
+				c2.subs2 = nil
+			}
 		case "set2":
+			if twinGone {
+				continue
+			}
 			if err := cl.proxy2.SetDelay(op.Value); err != nil {
 				return vt.Violationf("C14:valid-write-rejected", "step %d: SetDelay(%d) on the second object failed: %v", i, op.Value, err)
 			}
 			accepted2(op.Value)
 		case "update2":
+			if twinGone {
+				continue
+			}
 			if err := cl.twin.Helper.UpdateDelay(op.Value); err != nil {
 				return vt.Violationf("C14:valid-write-rejected", "step %d: service-side UpdateDelay(%d) on the second object failed: %v", i, op.Value, err)
 			}
 			accepted2(op.Value)
 		case "subscribe2":
-			if len(cl.subs2) >= 2 {
+			if twinGone || len(cl.subs2) >= 2 {
 				continue
 			}
-			_, ch, err := cl.proxy2.SubscribeDelay()
+			cancel2, ch, err := cl.proxy2.SubscribeDelay()
 			if err != nil {
 				return vt.Violationf("C14:subscribe-error", "step %d: SubscribeDelay on the second object failed: %v", i, err)
 			}
-			s := &subscriber{ch: ch}
+			s := &subscriber{ch: ch, cancel: cancel2}
 			go s.run()
 			cl.subs2 = append(cl.subs2, s)
 			vt.Label("subscriber-on-second-object")
@@ -374,7 +415,9 @@ func checkCase(c Case) error {
 		if v != model {
 			return vt.Violationf("C14:stale-read", "after step %d (%s): GetDelay returned %d, the last accepted write is %d", i, op.Kind, v, model)
 		}
-		if v2, err := clients[0].proxy2.GetDelay(); err != nil || v2 != model2 {
+		if twinGone {
+			// nothing is read from an object which is gone
+		} else if v2, err := clients[0].proxy2.GetDelay(); err != nil || v2 != model2 {
 			return vt.Violationf("C14:stale-read", "after step %d (%s): GetDelay on the second object returned (%d, %v), its last accepted write is %d", i, op.Kind, v2, err, model2)
 		}
 		if err := checkEvents(i, op.Kind); err != nil {
@@ -628,5 +671,5 @@ func TestRegister(t *testing.T)     { vt.Run(t, prop, "TestRegister", genCase, c
 func TestLinearizable(t *testing.T) { vt.Run(t, prop, "TestLinearizable", genConc, checkConc) }
 
 func TestReplay(t *testing.T) {
-	vt.Replay(t, map[string]func(json.RawMessage) error{"TestRegister": vt.Decode(checkCase), "TestLinearizable": vt.Decode(checkConc)})
+	vt.Replay(t, map[string]func(json.RawMessage) error{"TestRegister": vt.Decode(checkCase), "TestLinearizable": vt.Decode(checkConc), "TestCreated": vt.Decode(checkCreated)})
 }
